@@ -6,7 +6,9 @@ package main
 // Formulas: spec/Props.tla CapacityIndependent, ResetLikeNew.
 
 import (
+	"encoding/json"
 	"fmt"
+	"os"
 	"sync"
 
 	"github.com/intuitivelabs/sipsp"
@@ -200,6 +202,20 @@ func runReset(job *Job) Result {
 		}
 		o2, v2 := Call(x, b, offs)
 		return o2, v2, Obs(x, b, 0)
+	}
+	// the probes themselves are also used as first inputs (A): complete, successful uses of every slot
+	probeFile := ""
+	if job.InputsFile == "" && len(probes) > 0 {
+		f, _ := os.CreateTemp("", "probes-*.ndjson")
+		for _, p := range probes {
+			b, _ := json.Marshal(toInts(p))
+			f.Write(b)
+			f.WriteString("\n")
+		}
+		f.Close()
+		probeFile = f.Name()
+		job.InputsFile = probeFile
+		defer os.Remove(probeFile)
 	}
 	forEachInput(job, func(w int) func(in []byte) {
 		a := &acc{}
